@@ -20,6 +20,11 @@ RULESETS = [
     ["g1 and g2", "g2 or g3", "", "g1"],
     ["(g1 and g2) or g3", "g1", "g3", "g2 and g3"],
     ["g1 or g2", "g1 or g2", "g1 or g2", "g1 or g2"],
+    # the same shapes under other gene names: cobrapy iterates over a set of frozensets of ids, so the
+    # order in which combinations are evaluated depends on the names
+    ["b2 and a7", "a7 or x1", "", "b2"],
+    ["(k9 and b2) or zz", "k9", "zz", "b2 and zz"],
+    ["q and p", "p or r", "q", ""],
 ]
 BOUND_DEVS = [(-10, 10), (0, 10), (2, 10), (0, 0)]
 
